@@ -5,11 +5,11 @@ ID = 'C09'
 PKG = 'pkg/streamwriter'
 HARNESS_FILES = ['pkg/frame/zz_verif_common.go', 'pkg/frame/zz_verif_dialect.go', 'pkg/frame/zz_verif_c02.go',
                  'pkg/frame/zz_verif_c05.go', 'pkg/frame/zz_verif_c06.go', 'pkg/frame/zz_verif_export.go',
-                 'pkg/frame/zz_verif_msgs.go', 'pkg/streamwriter/zz_verif_c09.go', 'zz_verif_node.go', 'zz_verif_c11.go']
+                 'pkg/frame/zz_verif_msgs.go', 'pkg/frame/zz_verif_c09f.go', 'pkg/streamwriter/zz_verif_c09.go', 'zz_verif_node.go', 'zz_verif_c11.go', 'zz_verif_c09n.go']
 KERNEL_PKGS = ['.']
 NATIVE_ROOT_PREFIXES = ('verifHarness_C09_', 'verifHarness_C07_')
 CLOCK_PKGS = ['pkg/streamwriter']
-ROOTS = ['streamwriter.verifHarness_', r'v3\.verifHarness_C11_drain']
+ROOTS = ['streamwriter.verifHarness_', r'v3\.verifHarness_C11_drain', r'v3\.verifHarness_C09_node_init', r'frame\.verifHarness_C09_frame_conf']
 TAG_FILTER = ('C09/', 'C07/', 'C11/K3/')
 ALLOW = 'bufio,io,encoding/binary,errors,bytes'
 INITS = 'io,bufio,errors,github.com/bluenviron/gomavlib/v3/pkg/message,github.com/bluenviron/gomavlib/v3/pkg/frame'
@@ -33,13 +33,18 @@ def tasks(tier):
         for a in range(3):
             ts.append(Task('verifHarness_C11_drain', [version, a], pkg='.'))
     ts.append(Task('verifHarness_C09_init', []))
+    for kind in (0, 1, 2, 3):
+        for via in (0, 1):
+            ts.append(Task('verifHarness_C09_node_init', [kind, via], pkg='.'))
+    for via in (0, 1, 2):
+        ts.append(Task('verifHarness_C09_frame_conf', [via], pkg='pkg/frame'))
     for raw in (0, 1, 2):
         ts.append(Task('verifHarness_C09_v1_big_id', [raw]))
     return ts
 
 
 def required_reach(tier):
-    return ['C09/S', 'C09/M', 'C09/I', 'C09/V', 'C09/W', 'C11/K3']
+    return ['C09/S', 'C09/M', 'C09/I', 'C09/V', 'C09/W', 'C11/K3', 'C09/N', 'C09/P']
 
 
 def bounds(tier):
@@ -48,6 +53,8 @@ def bounds(tier):
                     'histories of any length follow by induction on nextSeqNumber',
             'wide_ids': 'a dialect message with any id in (255, 2^24) on a v2 link, decoded or pre-encoded', 'node_level': 'Node.encodeMessage + Channel.runWriter draining 3 items on v1 and v2 links (kernel K3 of C11)',
             'crosscheck': '3 consecutive writes of mixed shapes from a fresh writer',
+            'node_init': 'Node.Initialize and the deprecated NewNode(NodeConf): every valid configuration (version, system id, component id, keys, heartbeat / stream-request / timeout settings symbolic) is accepted and reaches the node and a new channel\'s stream writer unchanged (component id 1 when unset); a missing version, a zero system id and a key with version 1 are refused',
+            'frame_constructors': 'frame.NewReadWriter / ReadWriter.Initialize / NewReader + NewWriter: dialect, keys, version, system id, component id (1 when unset), link id symbolic: the reader and writer hold exactly what was configured',
             'init': 'every (version int, system id, component id, key present/absent)',
             'string_lengths': 'shape 1 string lengths 0,2,4,5 (quick) / 0..6 (thorough), bytes symbolic'}
 
